@@ -586,6 +586,7 @@ var c13doc = &h.Campaign[DocCase]{
 
 // every prefix of valid documents, exhaustively
 func TestC13Prefixes(t *testing.T) {
+	h.FirstShardOnly(t)
 	rec := h.NewRec("C13", "prefixes", "every proper prefix of 3 valid cache documents (declared + undeclared entries): each must be ignored as a whole without panic or failed start; distinct by (document, length); all non-trivial")
 	defer rec.Flush()
 	docs := []DocCase{
@@ -619,6 +620,7 @@ func TestC13Prefixes(t *testing.T) {
 // FileCache basics: atomic replacement is enumerated by the fault engine; here
 // the permissions and directory creation.
 func TestC13FileCacheModes(t *testing.T) {
+	h.FirstShardOnly(t)
 	rec := h.NewRec("C13", "filecache-modes", "FileCache under umask 0: directory created 0700, file written 0600, content read back byte-exact, for 4 payloads; each a non-trivial case")
 	defer rec.Flush()
 	old := syscall.Umask(0)
